@@ -19,7 +19,8 @@ EXPLANATION = ("D1 every loop of the BVH construction/traversal is pop-only, ite
                "D2 no unguarded may-panic site under the premise 'elements may be empty', the node-list construction sites have the shape the "
                "consumer relies on, and every entry that carries elements is consumed (the entries the consumer's loop leaves behind carry none, or are taken after it); D3 bounding boxes are built by min/max over every polygon point with matching coordinates; D4 a box miss returns None "
                "before the polygon is tested and the polygon test's answer is returned")
-DECIDED = ["D1 construction terminates", "D2 construction is total on every size including none", "D3 boxes contain their corners (accumulator shape)", "D4 box test before polygon test", "D5 reveal surfaces span wall plane to window plane on the four edges, for every wall tilt (exact symbolic geometry)", "D6 no element list is dropped while the node list is generated (obstacle conservation)", "D7 the box test is the slab method (max-of-mins / min-of-maxes, two miss conditions)", "D8 point_in_poly classifies the closing vertex and the loop vertices with the same comparison"]
+DECIDED = ["D1 construction terminates", "D2 construction is total on every size including none", "D3 boxes contain their corners (accumulator shape)", "D4 box test before polygon test", "D5 reveal surfaces span wall plane to window plane on the four edges, for every wall tilt (exact symbolic geometry)", "D6 no element list is dropped while the node list is generated (obstacle conservation)", "D7 the box test is the slab method (max-of-mins / min-of-maxes, two miss conditions)", "D8 point_in_poly classifies the closing vertex and the loop vertices with the same comparison",
+           "D9 the side test of the crossing-number algorithm is the cross product (v_i - p) x (v_j - v_i); nothing sits between the box test and its `?`"]
 UNDECIDED = ["accelerated answer = exhaustive answer beyond node-list protocol, obstacle conservation and the slab formula (e.g. the traversal order of PreorderIter)", "exact ray/plane crossing geometry of Ray::intersects_with_data"]
 ASSUMPTIONS = ["f32::min/max semantics; nalgebra point construction"]
 LEVEL_TEXT = ("Partial: necessary conditions of the ray-casting property are decided from the code's shape - the build loops terminate (worklist pushes are "
